@@ -393,7 +393,9 @@ def token_at(e, lines):
 
 
 def at_keyword(e, lines):
-    """'@kw' if the error points at a keyword (that is informative), else ''."""
+    """'@kw' if a generic message ("invalid syntax", "expected ':'") points at a keyword, else ''."""
+    if normalise_msg(getattr(e, "msg", e)) not in ("invalid-syntax", "expected-Q"):
+        return ""
     t = token_at(e, lines)
     return "@" + t if t.isalpha() and t.islower() else ""
 
@@ -567,7 +569,7 @@ def judge_embedded(where, scenic_src, python_src):
         res["violations"].append((f"embedded-shape:{where}", f"unexpected Scenic tree {type(s_top).__name__} for\n{scenic_src}"))
         res["status"] = "violating"
         return res
-    w = Walk(scenic_src.splitlines(), "parser-" + where)
+    w = Walk(scenic_src.splitlines(), "parser")
     if len(s_sub) != len(p_sub):
         w.mismatch("body:length", [where], f"{len(s_sub)} vs {len(p_sub)} statements", p_top)
     else:
@@ -755,6 +757,7 @@ def run(ctx):
     excused_programs = 0
     mismatch_total = {}
     viol_seen = {}
+    viol_examples = {}
     slow = []
 
     def absorb(outs):
@@ -801,6 +804,10 @@ def run(ctx):
             for sig, desc, case in o["violations"]:
                 n = viol_seen.get(sig, 0)
                 viol_seen[sig] = n + 1
+                text = case.get("src") or case.get("scenic") or case.get("path")
+                old = viol_examples.get(sig)
+                if old is None or ("path" not in case and len(text) < len(old["input"])) or ("path" in old.get("case", {}) and "path" not in case):
+                    viol_examples[sig] = {"input": text, "description": desc[:400], "case": {k: v for k, v in case.items() if k in ("kind", "path", "where")}}
                 if n < 3:  # the runner prints two per signature; keep the evidence small
                     ctx.violation(sig, desc, case)
             if o.get("secs", 0) > 20:
@@ -853,6 +860,7 @@ def run(ctx):
         mismatching_nodes_by_kind=dict(sorted(mismatch_total.items())),
         violating_programs=stats["violating"],
         violations_by_signature=dict(sorted(viol_seen.items())),
+        violation_examples=dict(sorted(viol_examples.items())),
         embedded_fragments=stats["embedded"],
         embedded_fragments_compiled=stats["embedded_compiled"],
         by_family=by_family,
